@@ -161,6 +161,10 @@ class Type3Tag(nfc.tag.Tag):
             except Type3TagCommandError:
                 return None
 
+            if data is None:
+                log.debug("no attribute data (mac verification failed)")
+                return None
+
             if sum(data[0:14]) != unpack(">H", data[14:16])[0]:
                 log.debug("ndef attribute data checksum error")
                 return None
@@ -221,9 +225,13 @@ class Type3Tag(nfc.tag.Tag):
                 last_block = min(i + nbr, last_block_number)
                 block_list = range(i, last_block)
                 try:
-                    data += self.tag.read_from_ndef_service(*block_list)
+                    block_data = self.tag.read_from_ndef_service(*block_list)
                 except Type3TagCommandError:
                     return None
+                if block_data is None:
+                    log.debug("no ndef data (mac verification failed)")
+                    return None
+                data += block_data
 
             data = data[0:attributes['ln']]
             log.debug("got {0} byte ndef data {1}{2}".format(
